@@ -344,6 +344,8 @@ def run_c13(chk: Check) -> int:
     verdicts = chk.judge("proto", "Trace_Proto", traces, what="c13-traces")
     harvest(chk, traces, verdicts, ("C13",))
     life_traces(chk)
+    from . import drv_pipeline
+    drv_pipeline.pipeline_part(chk)
     t = next(t for t in traces if t["mode"] == "clean" and len(t["candidates"]) > 1)
     chk.sample({"variant": t["variant"], "candidates": t["candidates"], "origin": t["origin"], "calls": t["calls"][:3], "plan_payloads": t["plan_payloads"][:4]})
     chk.assumptions += ["readers are wrapped in recording proxies (public MeterReaderBase interface); payload identity = payload content, "
@@ -354,7 +356,9 @@ def run_c13(chk: Check) -> int:
                            "code->spec: real readers in 8 candidate lists, clean HDLC/P1 plans, corrupted and mixed streams, random chunkings, "
                            "both protocol classes, each data_received() call judged by TLC; non-trivial = trace with at least one queue entry; "
                            "growth (DRIFT level): protocol lifecycle ProtoLife (connection_made/data/eof/connection_lost, done future, transport.close()) - "
-                           "all callback orders up to length 4/5 over 9 callback variants judged by Trace_ProtoLife")
+                           "all callback orders up to length 4/5 over 9 callback variants judged by Trace_ProtoLife; receive pipeline (tcp/serial connection factory "
+                           "with default readers -> message/payload protocol -> queue -> one AutoDecoder per connection) on clean single-meter streams, "
+                           "projected onto Trace_Hdlc/Trace_P1 (clean mode), Trace_Pipeline, Trace_Cosem and Trace_P1Dec")
 
 
 # ----------------------------------------------------------------------------- lifecycle (growth, DESIGN §12)
